@@ -39,7 +39,7 @@ func pertSites(lines []string) []Pert {
 		out = append(out, Pert{"trail", i, 0, 0}, Pert{"trail", i, 0, 1})
 	}
 	for b := 0; b <= len(lines); b++ {
-		for v := 0; v < 7; v++ {
+		for v := 0; v < 8; v++ {
 			out = append(out, Pert{"insert", b, 0, v})
 		}
 	}
@@ -85,6 +85,8 @@ func applyPerts(lines []string, ps []Pert) (string, bool) {
 				sb.WriteString(";REDCODE-94" + eol + ";NAME Upper" + eol + ";Author Mixed ; with ;assert 0 inside" + eol)
 			case 6:
 				sb.WriteString(";strategy" + eol + ";strategy x" + eol)
+			case 7:
+				sb.WriteString(";redcode-94" + eol)
 			default:
 				sb.WriteString("   \t " + eol)
 			}
@@ -160,6 +162,8 @@ func applyPerts(lines []string, ps []Pert) (string, bool) {
 				sb.WriteString(";REDCODE-94" + eol + ";NAME Upper" + eol + ";Author Mixed ; with ;assert 0 inside")
 			case 6:
 				sb.WriteString(";strategy" + eol + ";strategy x")
+			case 7:
+				sb.WriteString(";redcode-94")
 			}
 		}
 	} else {
